@@ -2,6 +2,7 @@
 
 from __future__ import annotations
 
+import re
 from typing import Any, TypeGuard
 
 from .location import SourceLocation
@@ -10,6 +11,8 @@ __all__ = ["Source", "is_source"]
 
 DEFAULT_NAME = "GraphQL request"
 DEFAULT_SOURCE_LOCATION = SourceLocation(1, 1)
+
+_re_line_terminator = re.compile(r"\r\n|[\n\r]")
 
 
 class Source:
@@ -47,14 +50,14 @@ class Source:
 
     def get_location(self, position: int) -> SourceLocation:
         """Get source location."""
-        lines = self.body[:position].splitlines()
-        if lines:
-            line = len(lines)
-            column = len(lines[-1]) + 1
-        else:
-            line = 1
-            column = 1
-        return SourceLocation(line, column)
+        last_line_start = 0
+        line = 1
+        for match in _re_line_terminator.finditer(self.body):
+            if match.end() > position:
+                break
+            last_line_start = match.end()
+            line += 1
+        return SourceLocation(line, position + 1 - last_line_start)
 
     def __repr__(self) -> str:
         return f"<{self.__class__.__name__} name={self.name!r}>"
